@@ -57,6 +57,23 @@ theorem mt_guards_pinned : Irismod.Gen.PureMt.guards =
      "msgServer.TransferDenom: recipient, err := sdk.AccAddressFromBech32(msg.Recipient); err != nil",
      "msgServer.TransferDenom: err := m.Keeper.TransferDenomOwner(ctx, msg.Id, sender, recipient); err != nil"] := rfl
 
+/-- every statement of these functions executed for its effect — a call whose result is dropped (store and bank
+writes, queue moves, hooks) or a write to a record field — with its nesting depth, in source order: a write that is
+dropped, duplicated, reordered or moved into or out of a branch breaks this -/
+theorem mt_effects_pinned : Irismod.Gen.PureMt.effects =
+    ["AddBalance: d0 store.Set(types.KeyBalance(addr, denomID, mtID), bz)",
+     "SubBalance: d0 store.Set(types.KeyBalance(addr, denomID, mtID), bz)",
+     "IncreaseMTSupply: d0 store.Set(types.KeySupply(denomID, mtID), bz)",
+     "decreaseMTSupply: d0 store.Set(types.KeySupply(denomID, mtID), bz)",
+     "Keeper.Transfer: d0 k.SubBalance(ctx, denomID, mtID, amount, from)",
+     "Keeper.IssueDenom: d0 k.SetDenom(ctx, denom)",
+     "Keeper.IssueMT: d0 k.SetMT(ctx, denomID, mt)",
+     "Keeper.IssueMT: d0 k.IncreaseDenomSupply(ctx, denomID)",
+     "Keeper.EditMT: d1 k.SetMT(ctx, denomID, newMT)",
+     "Keeper.BurnMT: d0 k.SubBalance(ctx, denomID, mtID, amount, owner)",
+     "Keeper.BurnMT: d0 k.decreaseMTSupply(ctx, denomID, mtID, amount)",
+     "Keeper.TransferDenomOwner: d0 denom.Owner = dstOwner.String()"] := rfl
+
 /-- the overflow guard `MaxUint64 - x < n` of `AddBalance` / `IncreaseMTSupply` is the model's ℕ-level guard -/
 theorem overflow_guard_eq_model (cur n : UInt64) :
     AddBalance_guard_1 cur.toNat n.toNat = some (decide (maxU64 - cur.toNat < n.toNat)) ∧
